@@ -166,7 +166,7 @@ func cmdCheck(args []string) int {
 	if tier == "thorough" {
 		timeout = 60
 	}
-	outDir := filepath.Join(verifDir(), "out")
+	outDir := filepath.Join(outDirBase(), "out")
 	discharge(run.results, dischargeOpts{timeoutS: timeout, workers: 12})
 	if tier == "thorough" {
 		// second, independent discharge of every obligation with the other
@@ -523,7 +523,7 @@ func writeEvidence(run *checkRun, eng *Engine, wall float64, fatal string) {
 		"violations":  len(run.violations),
 	}
 	b, _ := json.MarshalIndent(ev, "", " ")
-	dir := filepath.Join(verifDir(), "evidence")
+	dir := filepath.Join(outDirBase(), "evidence")
 	os.MkdirAll(dir, 0o755)
 	os.WriteFile(filepath.Join(dir, prop.ID+".json"), b, 0o644)
 }
